@@ -539,6 +539,12 @@ func runC19(c *Ctx) {
 	c.ruleLifecycle("L9-nothing-touched-after-hand-back", map[string]bool{"acquire": true, "clear-before-put": true, "puts-own-wrapper": true,
 		"engine-call1-own-result": true, "engine-call2-own-result": true, "engine-call3-own-result": true, "engine-call4-own-result": true})
 	c.Min("L9-nothing-touched-after-hand-back", 60)
+	// ownership of an instance covers its engine object (the result map field is written without a lock by
+	// the request that owns the instance) only if no two instances share one
+	c.only = func(key string) bool { return key == "NewGenginePool#own-engine-per-instance" }
+	c.ruleConstruction("L10-one-engine-per-instance")
+	c.only = nil
+	c.Min("L10-one-engine-per-instance", 1)
 	if n == 0 {
 		c.Lost("L5-captured-writes-locked", "stores to captured variables inside goroutines")
 	}
